@@ -154,6 +154,32 @@ class Ctx:
         """pc entails cond?"""
         return self.violates(cond) is None
 
+    def values_upto(self, expr, limit):
+        """the feasible values of a bit-vector term on this path if there are at most `limit`, else None"""
+        # the answer is recorded in the trail: during re-execution the solver already holds the constraints of
+        # later decisions, so asking it again would give a different (smaller) answer
+        pos = self.pos
+        if pos < len(self.trail):
+            e = self.trail[pos]; self.pos = pos + 1
+            return e.cond
+        self._ensure_model()
+        vals = []
+        self.solver.push()
+        try:
+            m = self.model
+            while True:
+                v = m.eval(expr, model_completion=True)
+                vals.append(v.as_long())
+                if len(vals) > limit: vals = None; break
+                self.solver.add(expr != v)
+                if self._check() != z3.sat: break
+                m = self.solver.model()
+        finally:
+            self.solver.pop()
+        self.trail.append(Entry(vals, True, False, None, False, 'vals'))
+        self.pos = pos + 1
+        return vals
+
     def feasible(self, cond):
         if cond is True: return True
         if cond is False: return False
@@ -194,7 +220,7 @@ class Ctx:
         return False
 
     def decisions(self):
-        return [e.choice for e in self.trail if e.kind != 'assume']
+        return [e.choice for e in self.trail if e.kind not in ('assume', 'vals')]
 
     def trail_signature(self):
         return [(e.kind, e.choice) for e in self.trail]
